@@ -42,7 +42,7 @@ struct Node {
   int ncs; int cs[4];
 };
 
-struct Led { int ctor_tid, dtor_tid, ndtor; };
+struct Led { int ctor_tid, dtor_tid, ndtor, pub; };
 
 struct TCtx {
   int tid, phase;
@@ -56,7 +56,10 @@ struct TCtx {
   int spawned, joined, parent;
   var* kids;                   /* Thread objects this thread created: an array in ITS frame (root of ITS collector) */
   long incs[MAXM];
-  int open[MAXM];              /* index of the open section-log entry per mutex */
+  int open[MAXM];
+  var pubs[64]; int pubser[64]; int npubs;      /* results published with new_root / new_raw (outlive the thread) */
+  uintptr_t tlsptr[NROOTS]; int tlsser[NROOTS]; int tlsodd[NROOTS];   /* root i is held ONLY by the thread's TLS (roots[i] == NULL) */
+  uintptr_t excptr, gcptr; int live;             /* the thread's current(Exception) / current(GC) while it runs */              /* index of the open section-log entry per mutex */
 };
 
 static struct TCtx ctx[2][MAXT];
@@ -68,7 +71,7 @@ static var mx[MAXM];
 static volatile long cell[MAXM];
 static volatile int inside[MAXM];
 static volatile int insec[MAXM];
-static int n_qskip, n_unjoined;
+static int n_qskip, n_unjoined, n_startctx, n_ctxshared, n_pubdead;
 static int n_overlap, n_miss, n_cross, n_double, n_rootkill, n_stale, n_running, n_maxpar;
 static int nthreads, nmutex;
 static var thr[MAXT];        /* handles of the Thread objects (not a root: each creator keeps its own in kids[], in its frame) */
@@ -117,7 +120,8 @@ static void Probe_Del(var self) {
   if (p->phase != cur_phase) { __sync_fetch_and_add(&n_stale, 1); return; }
   if (who != p->owner) __sync_fetch_and_add(&n_cross, 1);
   struct TCtx* o = &ctx[p->phase][p->owner];
-  for (int i = 0; i < o->nroots; i++) if (o->roots && o->roots[i] == self) __sync_fetch_and_add(&n_rootkill, 1);
+  for (int i = 0; i < o->nroots; i++)
+    if (o->roots && (o->roots[i] == self || (o->roots[i] == NULL && o->tlsptr[i] == (uintptr_t)self))) __sync_fetch_and_add(&n_rootkill, 1);
   if (me && me->nfin < MAXOBJ) { me->fin[me->nfin] = p->serial; me->finown[me->nfin] = p->owner; me->nfin++; }
 }
 
@@ -155,7 +159,7 @@ static struct Node* parse_block(char** s, int stop, char** stoptok) {
     n->kind = t[0];
     char* arg = t + 1;
     switch (t[0]) {
-      case 's': case 'w': { char* c = strchr(arg, ','); n->a = atol(arg); n->b = c ? atol(c + 1) : 0; break; }
+      case 's': case 'w': case 'K': { char* c = strchr(arg, ','); n->a = atol(arg); n->b = c ? atol(c + 1) : 0; break; }
       case '[': {
         char* c = NULL;
         n->body = parse_block(s, ']', &c);     /* c = the "]e,e" token */
@@ -293,6 +297,8 @@ static void leave_section(long m) {
 }
 
 static void do_spawn(struct TCtx* c, long u);
+static void do_spawn_copy(struct TCtx* c, long v, long u);
+static void check_pubs(struct TCtx* o);
 void add_seen(int t, int u, const char* s);
 static void do_join(struct TCtx* c, long u);
 
@@ -309,10 +315,36 @@ static void exec_node(struct TCtx* c, struct Node* n) {
     }
     case 'u':
       if (n->a < c->nroots) {
-        for (int i = (int)n->a; i + 1 < c->nroots; i++) c->roots[i] = c->roots[i + 1];
-        c->roots[--c->nroots] = NULL;
+        if (c->roots[n->a] == NULL && c->tlsptr[n->a]) {      /* held by the TLS only: forget it there */
+          snprintf(key, sizeof key, c->tlsodd[n->a] ? "t%d" : "__t%d", c->tlsser[n->a]);
+          rem(current(Thread), $S(key));
+        }
+        for (int i = (int)n->a; i + 1 < c->nroots; i++) {
+          c->roots[i] = c->roots[i + 1]; c->tlsptr[i] = c->tlsptr[i + 1]; c->tlsser[i] = c->tlsser[i + 1]; c->tlsodd[i] = c->tlsodd[i + 1];
+        }
+        c->nroots--; c->roots[c->nroots] = NULL; c->tlsptr[c->nroots] = 0;
       }
       break;
+    case 'h': {     /* a managed object reachable ONLY through the thread's TLS (key __t<serial> or t<serial>) */
+      int s = c->serial++;
+      var p = new(Probe, $I(c->phase), $I(c->tid), $I(s));
+      if (c->nroots < NROOTS) {
+        snprintf(key, sizeof key, (n->a & 1) ? "t%d" : "__t%d", s);
+        set(current(Thread), $S(key), p);
+        c->roots[c->nroots] = NULL; c->tlsptr[c->nroots] = (uintptr_t)p; c->tlsser[c->nroots] = s; c->tlsodd[c->nroots] = (int)(n->a & 1);
+        c->nroots++;
+      }
+      p = NULL;
+      break;
+    }
+    case 'p': {     /* publish a result that the collector's sweep does not own: p0 new_root, p1 new_raw */
+      int s = c->serial++;
+      var p = (n->a == 0) ? (var)new_root(Probe, $I(c->phase), $I(c->tid), $I(s)) : new_raw(Probe, $I(c->phase), $I(c->tid), $I(s));
+      led[c->phase][c->tid][s].pub = 1;
+      if (c->npubs < 64) { c->pubs[c->npubs] = p; c->pubser[c->npubs] = s; c->npubs++; }
+      tlog(c, "p%ld.%d", n->a, s);
+      break;
+    }
     case 'c': {
       struct GC* gc = current(GC);
       GC_Mark(gc); GC_Sweep(gc);
@@ -383,6 +415,7 @@ static void exec_node(struct TCtx* c, struct Node* n) {
       break;
     }
     case 'S': if (!c->alone) do_spawn(c, n->a); break;
+    case 'K': if (!c->alone) do_spawn_copy(c, n->a, n->b); break;
     case 'J': if (!c->alone) do_join(c, n->a); break;
     case 'P':
       if (!c->alone) {
@@ -427,6 +460,12 @@ static void run_prog(struct TCtx* c) {
     }
   }
   c->kids = NULL;
+  /* objects held only by the TLS: the table outlives this run (the Thread object may be called again) */
+  for (int i = 0; i < c->nroots; i++) if (c->roots[i] == NULL && c->tlsptr[i]) {
+    char key[16]; snprintf(key, sizeof key, c->tlsodd[i] ? "t%d" : "__t%d", c->tlsser[i]);
+    if (mem(current(Thread), $S(key))) rem(current(Thread), $S(key));
+    c->tlsptr[i] = 0;
+  }
   /* the roots die with this frame */
   c->nroots = 0; c->roots = NULL;
 }
@@ -436,7 +475,19 @@ static var worker_fn(var args) {
   struct TCtx* c = &ctx[cur_phase][u];
   me = c;
   if (!c->alone) { while (!go_flag) sched_yield(); }
+  /* the thread's own exception context and collector: fresh (depth 0, inactive) and nobody else's */
+  {
+    var x = current(Exception);
+    if (len(x) != 0 || running(x)) __sync_fetch_and_add(&n_startctx, 1);
+    c->excptr = (uintptr_t)x; c->gcptr = (uintptr_t)current(GC);
+    for (int t = 0; t < nthreads; t++) {
+      struct TCtx* o = &ctx[cur_phase][t];
+      if (o != c && o->live && (o->excptr == c->excptr || o->gcptr == c->gcptr)) __sync_fetch_and_add(&n_ctxshared, 1);
+    }
+    c->live = 1;
+  }
   run_prog(c);
+  c->live = 0;
   return NULL;
 }
 
@@ -459,6 +510,26 @@ static void do_spawn(struct TCtx* c, long u) {
   if (c->tid == 0 && ++done_spawns >= total_spawns) go_flag = 1;
 }
 
+/* thr[v] = copy(Thread object of u) — u is the current thread or a finished, joined thread — then call it */
+static void do_spawn_copy(struct TCtx* c, long v, long u) {
+  struct TCtx* o = &ctx[c->phase][v];
+  if (v <= 0 || v >= nthreads || u < 0 || u >= nthreads || o->spawned) return;
+  if (u != c->tid && !(ctx[c->phase][u].spawned && ctx[c->phase][u].joined)) return;
+  var src = (u == c->tid) ? current(Thread) : thr[u];
+  o->spawned = 1; o->parent = c->tid;
+  c->kids[v] = thr[v] = copy(src);        /* Thread_Assign: same function, a copy of the TLS table */
+  call(thr[v], targ[v]);
+}
+
+static void check_pubs(struct TCtx* o) {
+  for (int i = 0; i < o->npubs; i++) {
+    struct Led* l = &led[o->phase][o->tid][o->pubser[i]];
+    if (l->ndtor) { __sync_fetch_and_add(&n_pubdead, 1); continue; }
+    struct Probe* p = o->pubs[i];
+    if (p->serial != o->pubser[i] || p->owner != o->tid || type_of(p) isnt Probe) __sync_fetch_and_add(&n_pubdead, 1);
+  }
+}
+
 static void do_join(struct TCtx* c, long u) {
   struct TCtx* o = &ctx[c->phase][u];
   if (u <= 0 || u >= nthreads || !o->spawned || o->joined || o->parent != c->tid) return;   /* only the creator joins */
@@ -467,6 +538,7 @@ static void do_join(struct TCtx* c, long u) {
   o->joined = 1;
   /* probes finalised while the thread's collector was torn down (recorded by the thread itself) */
   flush_fin(o, 'x');
+  check_pubs(o);      /* what the thread published must be alive and readable right after join */
 }
 
 static int count_kind(struct Node* n, char k) {
@@ -478,6 +550,18 @@ static int count_kind(struct Node* n, char k) {
 static int count_spawn_of(struct Node* n, long u) {
   int r = 0;
   for (; n; n = n->next) { if (n->kind == 'S' && n->a == u) r++; r += count_spawn_of(n->body, u) + count_spawn_of(n->handler, u); }
+  return r;
+}
+
+static int count_copy_of(struct Node* n, long v) {
+  int r = 0;
+  for (; n; n = n->next) { if (n->kind == 'K' && n->a == v) r++; r += count_copy_of(n->body, v) + count_copy_of(n->handler, v); }
+  return r;
+}
+
+static int count_copies(struct Node** progs, int np, long v) {
+  int r = 0;
+  for (int t = 0; t < np; t++) r += count_copy_of(progs[t], v);
   return r;
 }
 
@@ -528,7 +612,9 @@ static void one_case(char* line) {
   for (int t = 1; t < nthreads && !strchr(f_nm_copy, 'n'); t++) {      /* flag n: no stand-alone phase (long-hold scenarios) */
     struct TCtx* c = &ctx[0][t];
     memset(c, 0, sizeof *c);
-    c->tid = t; c->phase = 0; c->prog = progs[t]; c->alone = 1; c->rnd = seed + (uint64_t)t * 77;
+    c->tid = t; c->phase = 0;
+    if (count_copies(progs, nthreads, t)) continue;      /* a copy of a Thread starts with its source's TLS: no stand-alone run */
+    c->prog = progs[t]; c->alone = 1; c->rnd = seed + (uint64_t)t * 77;
     for (int m = 0; m < MAXM; m++) { cell[m] = 0; inside[m] = 0; insec[m] = 0; }
     var th = new_raw(Thread, fobj);
     int rounds = count_spawns(progs, nthreads, t);
@@ -573,7 +659,7 @@ static void one_case(char* line) {
     for (int t = 1; t < nthreads; t++) {
       if (ph == 1 && !ctx[1][t].joined) continue;
       for (int i = 0; i < ctx[ph][t].serial && i < MAXOBJ; i++) {
-        if (led[ph][t][i].ndtor == 0) unfin++;
+        if (led[ph][t][i].ndtor == 0 && !led[ph][t][i].pub) unfin++;
       }
     }
   char lost[256]; size_t ln = 0; lost[0] = 0;
@@ -587,8 +673,9 @@ static void one_case(char* line) {
     for (int b2 = a + 1; b2 < nsec; b2++)
       if (seclog[a].m == seclog[b2].m && seclog[a].leave > 0 && seclog[b2].leave > 0 &&
           seclog[a].enter < seclog[b2].leave && seclog[b2].enter < seclog[a].leave) tsover++;
-  P(" ## X: tsover=%d sections=%d qskip=%d lost=%s overlap=%d miss=%d maxpar=%d cross=%d double=%d unfin=%d rootkill=%d stale=%d unjoined=%d",
-    tsover, nsec, n_qskip, ln ? lost : "0", n_overlap + a_overlap * 0, n_miss, n_maxpar, n_cross, n_double, unfin, n_rootkill, n_stale, unjoined + n_unjoined);
+  for (int t = 1; t < nthreads; t++) if (ctx[1][t].joined) check_pubs(&ctx[1][t]);
+  P(" ## X: startctx=%d ctxshared=%d pubdead=%d tsover=%d sections=%d qskip=%d lost=%s overlap=%d miss=%d maxpar=%d cross=%d double=%d unfin=%d rootkill=%d stale=%d unjoined=%d",
+    n_startctx, n_ctxshared, n_pubdead, tsover, nsec, n_qskip, ln ? lost : "0", n_overlap + a_overlap * 0, n_miss, n_maxpar, n_cross, n_double, unfin, n_rootkill, n_stale, unjoined + n_unjoined);
 }
 
 int main(int argc, char** argv) {
